@@ -156,6 +156,9 @@ pub struct Case {
     pub senders: usize,
     pub ops: Vec<Op>,
     pub horizon: u64,
+    /// self-test only: the generated document deliberately deviates from the script (simulates a
+    /// defective implementation) so that the oracle must object
+    pub sabotage: Option<String>,
 }
 
 impl Case {
@@ -171,7 +174,10 @@ impl Case {
                 OpKind::Term => json!({"s": o.sess, "at": o.at, "op": "term"}),
             })
             .collect();
-        json!({"senders": self.senders, "horizon": self.horizon, "ops": ops})
+        match &self.sabotage {
+            None => json!({"senders": self.senders, "horizon": self.horizon, "ops": ops}),
+            Some(x) => json!({"senders": self.senders, "horizon": self.horizon, "ops": ops, "sabotage": x}),
+        }
     }
     pub fn from_json(v: &Value) -> Option<Case> {
         let mut ops = Vec::new();
@@ -203,7 +209,12 @@ impl Case {
             };
             ops.push(Op { sess, at, kind });
         }
-        Some(Case { senders: v["senders"].as_u64()? as usize, ops, horizon: v["horizon"].as_u64()? })
+        Some(Case {
+            senders: v["senders"].as_u64()? as usize,
+            ops,
+            horizon: v["horizon"].as_u64()?,
+            sabotage: v.get("sabotage").and_then(|x| x.as_str()).map(|x| x.to_string()),
+        })
     }
     fn sends(&self) -> Vec<(usize, u64, &SendSpec)> {
         let mut v = Vec::new();
@@ -232,33 +243,45 @@ fn sender_xml(case: &Case, sess: usize, recorder_id: u32) -> String {
             OpKind::Send(ss) => {
                 x.push_str(&format!("<transition event=\"op.{}\">", i));
                 for s in ss {
-                    x.push_str(&format!("<script>mark('pre',{},{})</script><send event=\"e.{}\"", s.k, if s.loc { "arr" } else { "x" }, s.k));
+                    let sab = case.sabotage.as_deref().unwrap_or("");
+                    x.push_str(&format!("<script>mark('pre',{},{})</script>", s.k, if s.loc { "arr" } else { "x" }));
+                    if sab == "drop-send" && s.k == 0 {
+                        x.push_str(&format!("<script>mark('post',{},x)</script>", s.k));
+                        continue;
+                    }
+                    let copies = if sab == "dup-send" && s.k == 0 { 2 } else { 1 };
+                    for copy in 0..copies {
+                    x.push_str(&format!("<send event=\"e.{}\"", s.k));
                     if let Some(id) = &s.id {
                         x.push_str(&format!(" id=\"{}\"", xml_attr(id)));
                     }
                     if !s.to_self {
                         x.push_str(&format!(" target=\"#_scxml_{}\"", recorder_id));
                     }
-                    if s.expr {
+                    if sab == "short-delay" {
+                        x.push_str(" delay=\"85ms\"");
+                    } else if s.expr {
                         x.push_str(&format!(" delayexpr=\"{}\"", xml_attr(&format!("'{}'", s.delay))));
                     } else {
                         x.push_str(&format!(" delay=\"{}\"", xml_attr(&s.delay)));
                     }
-                    if s.loc {
+                    if s.loc || (sab == "late-eval" && s.var) {
                         x.push_str("><param name=\"v\" location=\"arr\"/></send>");
                     } else if s.var {
                         x.push_str("><param name=\"v\" expr=\"x\"/></send>");
                     } else {
                         x.push_str(&format!("><param name=\"v\" expr=\"{}\"/></send>", 1000 + s.k));
                     }
+                    let _ = copy;
+                    }
                     x.push_str(&format!("<script>mark('post',{},x)</script>", s.k));
                 }
                 x.push_str("</transition>");
             }
             OpKind::Cancel(id) => {
+                let el = if case.sabotage.as_deref() == Some("cancel-noop") { String::new() } else { format!("<cancel sendid=\"{}\"/>", xml_attr(id)) };
                 x.push_str(&format!(
-                    "<transition event=\"op.{i}\"><script>mark('cpre',{i},x)</script><cancel sendid=\"{}\"/><script>mark('cpost',{i},x)</script></transition>",
-                    xml_attr(id)
+                    "<transition event=\"op.{i}\"><script>mark('cpre',{i},x)</script>{el}<script>mark('cpost',{i},x)</script></transition>"
                 ));
             }
             OpKind::Assign(n) => {
@@ -267,9 +290,8 @@ fn sender_xml(case: &Case, sess: usize, recorder_id: u32) -> String {
                 ));
             }
             OpKind::Term => {
-                x.push_str(&format!(
-                    "<transition event=\"op.{i}\" target=\"fin\"><script>mark('tpre',{i},x)</script></transition>"
-                ));
+                let tgt = if case.sabotage.as_deref() == Some("no-terminate") { "" } else { " target=\"fin\"" };
+                x.push_str(&format!("<transition event=\"op.{i}\"{tgt}><script>mark('tpre',{i},x)</script></transition>"));
             }
         }
     }
@@ -410,7 +432,11 @@ pub fn run_case(case: &Case, delays: &BTreeMap<usize, i64>, expect_n: usize, hb:
         let o = &case.ops[i];
         sleep_until(t0 + Duration::from_millis(o.at));
         let _ = senders[o.sess].sender.send(Box::new(Event::new_simple(&format!("op.{}", i))));
-        if let OpKind::Term = o.kind {
+        if let (OpKind::Term, Some("no-terminate")) = (&o.kind, case.sabotage.as_deref()) {
+            // self-test: pretend the session thread has ended
+            std::thread::sleep(Duration::from_millis(2));
+            joined.insert(i, us(Instant::now()));
+        } else if let OpKind::Term = o.kind {
             match join_with_timeout(&mut senders[o.sess], Duration::from_secs(2)) {
                 Ok(p) => {
                     joined.insert(i, us(Instant::now()));
@@ -826,7 +852,7 @@ pub fn gen_case(p: &mut Prng) -> Case {
         ops.push(Op { sess, at, kind });
     }
     let last_op = ops.last().map(|o| o.at).unwrap_or(0);
-    Case { senders, ops, horizon: horizon.max(last_op) + SLOT }
+    Case { senders, ops, horizon: horizon.max(last_op) + SLOT, sabotage: None }
 }
 
 fn mk_send(k: usize, id: Option<&str>, delay: &str) -> SendSpec {
@@ -846,6 +872,7 @@ pub fn corpus() -> Vec<(&'static str, Case)> {
                     op(0, 80, OpKind::Send(vec![mk_send(1, Some("X"), "200ms")])),
                 ],
                 horizon: 320,
+                sabotage: None,
             },
         ),
         // the id is free again after delivery
@@ -858,6 +885,7 @@ pub fn corpus() -> Vec<(&'static str, Case)> {
                     op(0, 80, OpKind::Send(vec![mk_send(1, Some("X"), "40ms")])),
                 ],
                 horizon: 160,
+                sabotage: None,
             },
         ),
         // due order differs from send order; data changes after the send
@@ -871,6 +899,7 @@ pub fn corpus() -> Vec<(&'static str, Case)> {
                     op(0, 160, OpKind::Assign(9)),
                 ],
                 horizon: 400,
+                sabotage: None,
             },
         ),
         // cancel before due, cancel after due, cancel of an unrelated id
@@ -885,6 +914,7 @@ pub fn corpus() -> Vec<(&'static str, Case)> {
                     op(0, 240, OpKind::Cancel("Z".to_string())),
                 ],
                 horizon: 320,
+                sabotage: None,
             },
         ),
         // two sessions with the same id: cancel in one leaves the other alone
@@ -898,6 +928,7 @@ pub fn corpus() -> Vec<(&'static str, Case)> {
                     op(0, 160, OpKind::Cancel("A".to_string())),
                 ],
                 horizon: 360,
+                sabotage: None,
             },
         ),
         // termination discards what is pending, also what has no id
@@ -911,6 +942,7 @@ pub fn corpus() -> Vec<(&'static str, Case)> {
                     op(0, 160, OpKind::Term), // wait: 0 is due at 120 (delivered), 1 at 200 (discarded)
                 ],
                 horizon: 360,
+                sabotage: None,
             },
         ),
         // same delay twice in one block: same due time, order of sending
@@ -920,6 +952,7 @@ pub fn corpus() -> Vec<(&'static str, Case)> {
                 senders: 1,
                 ops: vec![op(0, 0, OpKind::Send(vec![mk_send(0, None, "120ms"), mk_send(1, Some("A"), "0.12s"), mk_send(2, None, "40ms")]))],
                 horizon: 200,
+                sabotage: None,
             },
         ),
         // an array handed over by location stays shared with the sender's datamodel
@@ -940,6 +973,7 @@ pub fn corpus() -> Vec<(&'static str, Case)> {
                     op(0, 160, OpKind::Assign(99)),
                 ],
                 horizon: 320,
+                sabotage: None,
             },
         ),
         // not carried out / not delayed
@@ -962,6 +996,7 @@ pub fn corpus() -> Vec<(&'static str, Case)> {
                     op(0, 80, OpKind::Assign(3)),
                 ],
                 horizon: 200,
+                sabotage: None,
             },
         ),
     ]
@@ -1392,6 +1427,148 @@ fn check_reader_delay(s: &str, origin: &str, model: &mut Model, rep: &mut Report
 }
 
 // ------------------------------------------------------------------------------------------------
+// self-test: would the check notice a defective implementation?
+// ------------------------------------------------------------------------------------------------
+
+/// `parse_duration_to_milliseconds` as of /repo at the time of writing, with one deliberate defect
+fn duration_mutant(m: u32, d: &str) -> i64 {
+    use rufsm::expression_engine::lexer::ExpressionLexer;
+    if d.is_empty() {
+        return if m == 5 { -1 } else { 0 };
+    }
+    let mut exp = ExpressionLexer::new(d.to_string());
+    let value_result = exp.next_number();
+    if value_result.is_err() {
+        return -1;
+    }
+    let Ok(unit) = exp.next_name() else {
+        return if m == 3 { -1 } else { 0 };
+    };
+    let mut v = value_result.unwrap().as_double();
+    let unit = if m == 4 { unit.to_lowercase() } else { unit };
+    match unit.as_str() {
+        "D" | "d" => v *= 24.0 * 60.0 * 60.0 * 1000.0,
+        "H" | "h" => v *= 60.0 * 60.0 * 1000.0,
+        "M" | "m" => v *= if m == 2 { 6000.0 } else { 60000.0 },
+        "S" | "s" => v *= 1000.0,
+        "MS" | "ms" => {}
+        _ => return -1,
+    }
+    if m == 1 {
+        v as i64
+    } else if m == 6 {
+        (v + 0.5).floor() as i64
+    } else {
+        v.round() as i64
+    }
+}
+
+const DURATION_MUTANTS: &[(u32, &str)] = &[
+    (1, "truncates instead of rounding"),
+    (2, "minute = 6000 ms"),
+    (3, "number without unit gives -1 instead of 0"),
+    (4, "units matched case-insensitively (mS, Ms accepted)"),
+    (5, "empty string gives -1"),
+    (6, "rounds half up instead of half away from zero (negative ties)"),
+];
+
+fn selftest(args: &Args, model: &mut Model, rep: &mut Report) {
+    let mut summary = serde_json::Map::new();
+    // --- duration mutants against the model on the same strings as Part A (corpus + a slice of the generated ones)
+    let mut strings = duration_corpus();
+    for i in 0..1500 {
+        let mut p = Prng::for_case(args.seed ^ 0xD0, i);
+        strings.push(gen_duration(&mut p));
+    }
+    let mut verdicts: Vec<(String, String)> = Vec::new();
+    for s in &strings {
+        let (m, class) = model_dur(model, s);
+        verdicts.push((format!("{}", m), class));
+    }
+    for (id, what) in DURATION_MUTANTS {
+        let mut caught = 0;
+        let mut example = None;
+        for (s, (m, class)) in strings.iter().zip(verdicts.iter()) {
+            if class == "fragile" {
+                continue;
+            }
+            let got = duration_mutant(*id, s);
+            if format!("{}", got) != *m {
+                caught += 1;
+                if example.is_none() {
+                    example = Some(s.clone());
+                }
+            }
+        }
+        summary.insert(format!("duration mutant {}: {}", id, what), json!({"strings_that_expose_it": caught, "first": example}));
+        if caught == 0 {
+            rep.disagree(json!({"selftest": format!("duration mutant '{}' is not noticed by any string", what)}));
+        }
+    }
+    // the unmutated copy must agree everywhere (else the copy, not the check, is stale)
+    let stale = strings.iter().zip(verdicts.iter()).filter(|(s, (m, c))| c != "fragile" && format!("{}", duration_mutant(0, s)) != *m).count();
+    summary.insert("duration copy (no defect) differing from the model".to_string(), json!(stale));
+
+    // --- sabotaged documents: the oracle must object with the expected signature
+    let op = |sess, at, kind| Op { sess, at, kind };
+    let tests: Vec<(&str, &str, Case)> = vec![
+        (
+            "cancel-noop",
+            "C16:cancelled-delivered",
+            Case { senders: 1, ops: vec![op(0, 0, OpKind::Send(vec![mk_send(0, Some("A"), "120ms")])), op(0, 80, OpKind::Cancel("A".into()))], horizon: 240, sabotage: Some("cancel-noop".into()) },
+        ),
+        (
+            "short-delay",
+            "C16:early",
+            Case { senders: 1, ops: vec![op(0, 0, OpKind::Send(vec![mk_send(0, None, "120ms")]))], horizon: 200, sabotage: Some("short-delay".into()) },
+        ),
+        (
+            "late-eval",
+            "C16:late-value",
+            Case {
+                senders: 1,
+                ops: vec![op(0, 0, OpKind::Assign(1)), op(0, 80, OpKind::Send(vec![mk_send(0, None, "200ms")])), op(0, 160, OpKind::Assign(99))],
+                horizon: 320,
+                sabotage: Some("late-eval".into()),
+            },
+        ),
+        (
+            "drop-send",
+            "C16:lost",
+            Case { senders: 1, ops: vec![op(0, 0, OpKind::Send(vec![mk_send(0, None, "120ms")]))], horizon: 200, sabotage: Some("drop-send".into()) },
+        ),
+        (
+            "dup-send",
+            "C16:delivered-twice",
+            Case { senders: 1, ops: vec![op(0, 0, OpKind::Send(vec![mk_send(0, None, "120ms")]))], horizon: 200, sabotage: Some("dup-send".into()) },
+        ),
+        (
+            "no-terminate",
+            "C16:terminated-delivered",
+            Case { senders: 1, ops: vec![op(0, 0, OpKind::Send(vec![mk_send(0, None, "200ms")])), op(0, 80, OpKind::Term)], horizon: 280, sabotage: Some("no-terminate".into()) },
+        ),
+    ];
+    let mut scratch = Report::new("c16-selftest", "");
+    let prepared: Vec<Prepared> = tests.iter().map(|(n, _, c)| prepare(format!("corpus: selftest {}", n), c.clone(), model)).collect();
+    run_timing(prepared, 6, model, &mut scratch);
+    for (name, want, _) in &tests {
+        let sigs: Vec<String> = scratch
+            .oracle_failures
+            .iter()
+            .filter(|f| f["origin"].as_str() == Some(&format!("corpus: selftest {}", name)))
+            .map(|f| f["signature"].as_str().unwrap_or("").to_string())
+            .collect();
+        let ok = sigs.iter().any(|s| s.starts_with(want));
+        let differs = scratch.disagreements.iter().any(|d| d["origin"].as_str() == Some(&format!("corpus: selftest {}", name)));
+        summary.insert(format!("sabotage {}", name), json!({"expected": want, "oracle_said": sigs, "model_vs_impl_differs": differs}));
+        if !ok {
+            rep.disagree(json!({"selftest": format!("sabotage '{}' was not flagged as {}", name, want), "oracle_said": sigs}));
+        }
+    }
+    rep.extra.insert("selftest".to_string(), Value::Object(summary));
+}
+
+// ------------------------------------------------------------------------------------------------
 
 pub fn run(args: &Args, model: &mut Model) -> Report {
     let mut rep = Report::new(
@@ -1469,6 +1646,7 @@ pub fn run(args: &Args, model: &mut Model) -> Report {
         let c = gen_case(&mut p);
         cases.push(prepare(format!("gen seed={} index={}", args.seed, i), c, model));
     }
+    selftest(args, model, &mut rep);
     let workers = args.extra.iter().position(|x| x == "--workers").and_then(|i| args.extra.get(i + 1)).and_then(|x| x.parse().ok()).unwrap_or(12);
     run_timing(cases, workers, model, &mut rep);
     rep
